@@ -699,7 +699,24 @@ func runC18(c *Ctx) {
 							body = "0"
 						}
 						line := join("events", cs.proto_, fmt.Sprint(recv), fmt.Sprint(send), fails, body, fmt.Sprint(cstream), fmt.Sprint(sstream))
-						c.Correspond("events", line, strings.Join(norm, ",")+"|"+endS, true)
+						impl := strings.Join(norm, ",") + "|" + endS
+						if cs.svc == "Back" && cstream {
+							// the RegisterConn forwarder receives (its upload pump) and sends (its reply loop) on two
+							// goroutines: the relative order of in- and out-payload events is the scheduler's. Both
+							// sides are compared with the payload events in a canonical order (counts and the rest
+							// of the sequence still have to agree; the grammar above judged the order rules).
+							model := c.Drv.Ask(line)
+							c.count("events", line, true)
+							c.res.Corresponded++
+							if c18CanonPayloads(model) != c18CanonPayloads(impl) {
+								c.res.NDisagree++
+								if len(c.res.Disagree) < 25 {
+									c.res.Disagree = append(c.res.Disagree, Case{Kind: "events", Input: line, Impl: impl, Model: model})
+								}
+							}
+						} else {
+							c.Correspond("events", line, impl, true)
+						}
 					}
 				}
 			}
@@ -1093,4 +1110,24 @@ func c18WebDetails(b64 string) string {
 		return " details=undecodable"
 	}
 	return fmt.Sprintf(" details=%d", len(st.Details))
+}
+
+// c18CanonPayloads sorts the events between "begin" and "outTrailer" / "end" (payloads and the
+// out-header) so that two interleavings of the same events compare equal.
+func c18CanonPayloads(line string) string {
+	seq, end, _ := strings.Cut(line, "|")
+	evs := strings.Split(seq, ",")
+	lo, hi := 0, len(evs)
+	for i, e := range evs {
+		if e == "begin" {
+			lo = i + 1
+		}
+		if (e == "outTrailer" || e == "end") && i < hi {
+			hi = i
+		}
+	}
+	if lo < hi {
+		sort.Strings(evs[lo:hi])
+	}
+	return strings.Join(evs, ",") + "|" + end
 }
